@@ -462,6 +462,14 @@ async fn run_script(connect: bool, early: Vec<u8>, steps: Vec<String>) -> String
                 }
                 out.push("-".to_string());
             }
+            "lclose" => {
+                // the application closes the connection object it got from Node::connections(); the peer keeps its socket open
+                let conns: Vec<_> = node.connections().iter().map(|e| e.value().clone()).collect();
+                for c in conns {
+                    let _ = c.lock().await.close().await;
+                }
+                out.push("-".to_string());
+            }
             "results" => {
                 settle().await;
                 let mut rs = Vec::new();
